@@ -6,6 +6,8 @@ import GocoinV.Proofs.C19Run2
 namespace GocoinV.Proofs.C19
 open GocoinV GocoinV.Qdb GocoinV.QdbSpec
 
+variable {eg : Bool}
+
 /-- everything memput / memdel leave alone -/
 def other (d : DB) :=
   (d.fs, d.pending, d.datOpen, d.logOpen, d.volatile, d.opts, d.datIdx, d.verSeq, d.dataSeq, d.failed, d.noSync)
@@ -144,13 +146,13 @@ structure DatState (F : FS) (vol : Bool) (a : DB) (used : List Nat) : Prop where
   used : ∀ kr ∈ snapBase F, kr.2.seq ∈ used
 
 theorem loaddat_state (F : FS) (vol : Bool) (opts : Opts) :
-    DatState F vol (loaddat { fs := F, volatile := vol, opts := opts }).1
-      (loaddat { fs := F, volatile := vol, opts := opts }).2 := by
+    DatState F vol (loaddat { fs := F, volatile := vol, opts := opts, eager := eg }).1
+      (loaddat { fs := F, volatile := vol, opts := opts, eager := eg }).2 := by
   unfold loaddat
   cases hp : pickIdx F with
   | none =>
     obtain ⟨p0, p1⟩ := pickIdx_none F hp
-    simp only [show ({ fs := F, volatile := vol, opts := opts } : DB).fs = F from rfl, hp]
+    simp only [show ({ fs := F, volatile := vol, opts := opts, eager := eg } : DB).fs = F from rfl, hp]
     have hsb : snapBase F = [] := by unfold snapBase; rw [hp]
     have hsv : snapVer F = 0 := by unfold snapVer; rw [hp]
     refine ⟨hsb.symm, rfl, rfl, rfl, rfl, rfl, hsv.symm, rfl, rfl, rfl, ?_, ?_, ?_, ?_⟩
@@ -162,8 +164,8 @@ theorem loaddat_state (F : FS) (vol : Bool) (opts : Opts) :
     · rw [hsb]; intro kr h; cases h
   | some t =>
     obtain ⟨i, sv, d⟩ := t
-    simp only [show ({ fs := F, volatile := vol, opts := opts } : DB).fs = F from rfl, hp]
-    let dbE : DB := { emit ({ fs := F, volatile := vol, opts := opts } : DB) "qdb.loadneweridx:removed" (.removeIdx (1 - i)) with
+    simp only [show ({ fs := F, volatile := vol, opts := opts, eager := eg } : DB).fs = F from rfl, hp]
+    let dbE : DB := { emit ({ fs := F, volatile := vol, opts := opts, eager := eg } : DB) "qdb.loadneweridx:removed" (.removeIdx (1 - i)) with
       datIdx := i, verSeq := sv }
     obtain ⟨hoth, _, hmx⟩ := memputAll_other (snapshotRecs d) dbE
     obtain ⟨hidx, _⟩ := memputAll_isetAll (snapshotRecs d) dbE
@@ -209,7 +211,7 @@ theorem loaddat_state (F : FS) (vol : Bool) (opts : Opts) :
 
 theorem open_state (F : FS) (vol : Bool) (opts : Opts) (E : List LogEntry) (hE : ∀ e ∈ E, EntryFits e)
     (hlog : LogState F (snapVer F) E) (hsv : snapVer F < 2^32) :
-    OpenState F vol (openIndex { fs := F, volatile := vol, opts := opts }) := by
+    OpenState F vol (openIndex { fs := F, volatile := vol, opts := opts, eager := eg }) := by
   have A := loaddat_state F vol opts
   have hD : diskIndex F = applyEntriesL (snapBase F) (E.map stripE) := by
     unfold diskIndex
@@ -217,12 +219,12 @@ theorem open_state (F : FS) (vol : Bool) (opts : Opts) (E : List LogEntry) (hE :
   unfold openIndex
   dsimp only
   -- the state after loadlog
-  have hB : ∃ b used, loadlog (loaddat { fs := F, volatile := vol, opts := opts }).1
-        (loaddat { fs := F, volatile := vol, opts := opts }).2 = (b, used) ∧
+  have hB : ∃ b used, loadlog (loaddat { fs := F, volatile := vol, opts := opts, eager := eg }).1
+        (loaddat { fs := F, volatile := vol, opts := opts, eager := eg }).2 = (b, used) ∧
       b.index = diskIndex F ∧ b.failed = none ∧ b.pending = [] ∧ b.datOpen = false ∧ b.volatile = vol ∧
-      b.verSeq = snapVer F ∧ b.fs = (loaddat { fs := F, volatile := vol, opts := opts }).1.fs ∧
+      b.verSeq = snapVer F ∧ b.fs = (loaddat { fs := F, volatile := vol, opts := opts, eager := eg }).1.fs ∧
       (b.logOpen = true ↔ F.log ≠ none) ∧
-      b.datIdx = (loaddat { fs := F, volatile := vol, opts := opts }).1.datIdx ∧
+      b.datIdx = (loaddat { fs := F, volatile := vol, opts := opts, eager := eg }).1.datIdx ∧
       (∀ kr ∈ diskIndex F, kr.2.seq ≤ b.maxSeq) ∧ (∀ kr ∈ diskIndex F, kr.2.seq ∈ used) := by
     unfold loadlog
     rw [A.log]
@@ -238,7 +240,7 @@ theorem open_state (F : FS) (vol : Bool) (opts : Opts) (E : List LogEntry) (hE :
       have hparse : parseLog (encLog E).length (encLog E) = E.map stripE :=
         parseLog_encLog E hE _ (encLog_length_ge E)
       rw [hparse]
-      obtain ⟨hoth, hm1, hm2⟩ := applyLog_other (E.map stripE) (loaddat { fs := F, volatile := vol, opts := opts }).1
+      obtain ⟨hoth, hm1, hm2⟩ := applyLog_other (E.map stripE) (loaddat { fs := F, volatile := vol, opts := opts, eager := eg }).1
       unfold other at hoth
       simp only [Prod.mk.injEq] at hoth
       obtain ⟨o_fs, o_pe, o_do, _, o_vol, _, o_di, o_vs, _, o_f, _⟩ := hoth
@@ -361,7 +363,7 @@ theorem diskIndex_congr2 (F1 F2 : FS) (hp : pickIdx F1 = pickIdx F2) (hl : F1.lo
   rw [hp, hl, hv]
 
 /-- `load(nil)` after `NewDBidx` on a readable directory reads every record (any mode) -/
-theorem loadAll_of_openState (F : FS) (vol : Bool) (X : DB) (S : OpenState F vol X) (hR : DirReadable F) :
+theorem loadAll_of_openState (F : FS) (vol : Bool) (X : DB) (S : OpenState F vol X) (hR : DirReadable eg F) :
     loadAll X = { X with index := mapV (loadedRec X.fs) (diskIndex F) } := by
   have hfold := loadFold_general (diskIndex F) X S.failed (by
     intro kr hkr
@@ -374,7 +376,7 @@ theorem loadAll_of_openState (F : FS) (vol : Bool) (X : DB) (S : OpenState F vol
 /-- the invariants follow from what `NewDBidx` leaves (`OpenState`) once the records are loaded; stated for any
     state `X` so that it also applies when `NewDBidx` discarded the log (then `F` is the directory without it) -/
 theorem inv3_of_openState (F : FS) (X : DB) (S : OpenState F false X) (E : List LogEntry) (hE : ∀ e ∈ E, EntryFits e)
-    (hlog : LogState F (snapVer F) E) (hsv : snapVer F < 2^32) (hR : DirReadable F)
+    (hlog : LogState F (snapVer F) E) (hsv : snapVer F < 2^32) (hR : DirReadable eg F)
     (hmax : X.maxSeq + 1 < 2^32) :
     loadAll X = { X with index := mapV (loadedRec X.fs) (diskIndex F) } ∧
     Inv3 { X with index := mapV (loadedRec X.fs) (diskIndex F), dataSeq := u32 (X.maxSeq + 1) } := by
@@ -488,15 +490,15 @@ theorem inv3_of_openState (F : FS) (X : DB) (S : OpenState F false X) (E : List 
 
 /-- NewDBExt (non-volatile, LoadData) on a readable directory with a well-formed log satisfies the invariants -/
 theorem open_inv3 (F : FS) (opts : Opts) (E : List LogEntry) (hE : ∀ e ∈ E, EntryFits e)
-    (hlog : LogState F (snapVer F) E) (hsv : snapVer F < 2^32) (hR : DirReadable F)
-    (hmax : (openIndex { fs := F, volatile := false, opts := opts }).maxSeq + 1 < 2^32) :
-    Inv3 (openDB F false true opts) := by
+    (hlog : LogState F (snapVer F) E) (hsv : snapVer F < 2^32) (hR : DirReadable eg F)
+    (hmax : (openIndex { fs := F, volatile := false, opts := opts, eager := eg }).maxSeq + 1 < 2^32) :
+    Inv3 (openDB F false true opts eg) := by
   have S := open_state F false opts E hE hlog hsv
   obtain ⟨hload, h3⟩ := inv3_of_openState F _ S E hE hlog hsv hR hmax
-  have hopen : openDB F false true opts =
-      { openIndex { fs := F, volatile := false, opts := opts } with
-        index := mapV (loadedRec (openIndex { fs := F, volatile := false, opts := opts }).fs) (diskIndex F),
-        dataSeq := u32 ((openIndex { fs := F, volatile := false, opts := opts }).maxSeq + 1) } := by
+  have hopen : openDB F false true opts eg =
+      { openIndex { fs := F, volatile := false, opts := opts, eager := eg } with
+        index := mapV (loadedRec (openIndex { fs := F, volatile := false, opts := opts, eager := eg }).fs) (diskIndex F),
+        dataSeq := u32 ((openIndex { fs := F, volatile := false, opts := opts, eager := eg }).maxSeq + 1) } := by
     unfold openDB
     simp only [↓reduceIte]
     rw [hload]
